@@ -187,7 +187,7 @@ func runC18(r *Report) {
 		}
 		for _, st := range starts {
 			hits := WalkFrom(st, nil, func(in ssa.Instruction) int {
-				if OrDeferred(isRec("RecordFailure"))(in) {
+				if OrDeferred(isRec("RecordFailure"))(in) || performsVia(in, isRec("RecordFailure"), nil) {
 					return Stop
 				}
 				if _, ok := in.(*ssa.Return); ok {
@@ -212,7 +212,7 @@ func runC18(r *Report) {
 				continue
 			}
 			skipped := WalkFrom(f.Blocks[0], nil, func(in ssa.Instruction) int {
-				if OrDeferred(isRec("RecordSuccess"))(in) {
+				if OrDeferred(isRec("RecordSuccess"))(in) || performsVia(in, isRec("RecordSuccess"), nil) {
 					return Stop
 				}
 				if in == ssa.Instruction(ret) {
